@@ -22,7 +22,7 @@ def run(ctx: Context) -> None:
     ctx.rule('R10.2', "supplied tables are used as given under their own validity test, else derived; the validity test looks up the table named by its own mesh attribute, requires the edge dimension for edge tables, and expects exactly {primary dimension, column dimension}", floor=22)
     ctx.rule('R10.3', "node / edge / face coordinate variables are looked up by the names in the mesh attributes, x first and y second, dataset-wide", floor=6)
     ctx.rule('R10.4', "derived tables agree with face-node: one consecutive-pair iterator (closing the ring), edges keyed by unordered node pair, edge-face filled per face edge, face-face written in both directions", floor=10)
-    ctx.rule('R10.5', "dimensions are discovered from the mesh attributes with the documented fall-backs", floor=5)
+    ctx.rule('R10.5', "dimensions are discovered from the mesh attributes with the documented fall-backs", floor=6)
     ctx.rule('R10.6', "normalising a table never writes into the dataset's own arrays (a second topology on the same data sees the same file)", floor=1)
     ctx.rule('R10.7', "faces are built from the unmasked entries of the normalised face-node table only: rows are grouped by their unmasked count and each group reads exactly that many leading columns; each group is written to its own rows (facts shared with C02 R02.3)", floor=4)
     from . import c02 as _c02
@@ -337,6 +337,23 @@ def run(ctx: Context) -> None:
             and norm_text(tw.returns()[-1].value) == mt.name('two')
         ctx.check('R10.5', ok, "the size-2 dimension is the one named 'Two' when it exists with size 2, else the first dimension of size 2, else a new 'Two'", tw, tw.node,
                   construct='two_dimension: standard name first, then any size-2 dimension, then the standard name')
+        # an unrelated dimension of size two (exactly two time steps) must not be taken for the pair dimension
+        # while an edge table is there to say which one it is
+        from .common import positive_conditions as _pc
+        twflow = ctx.flow(tw)
+        pref = None
+        for r in tw.returns():
+            conds = [(t, pol) for t, pol in _pc(tw, r)]
+            not_edge = any(isinstance(t, ast.Compare) and isinstance(t.ops[0], ast.Eq) and pol is False and 'self.edge_dimension' in (norm_text(t.left), norm_text(t.comparators[0]))
+                           and norm_text(r.value) in (norm_text(t.left), norm_text(t.comparators[0])) for t, pol in conds)
+            size_two = any(isinstance(t, ast.Compare) and isinstance(t.ops[0], ast.Eq) and pol is True and const_value(t.comparators[0], None) == 2
+                           and norm_text(t.left) == f"self.dataset.sizes[{norm_text(r.value)}]" for t, pol in conds)
+            from_edge_table = twflow.reaches(r.value, lambda n: isinstance(n, ast.Constant) and n.value in ('edge_node_connectivity', 'edge_face_connectivity'))
+            if not_edge and size_two and from_edge_table:
+                pref = r
+        ok = pref is not None and len(scan) == 1 and pref.lineno < scan[0].lineno and std is not None and std.lineno < pref.lineno
+        ctx.check('R10.5', ok, "when the mesh does not use the name 'Two', the pair dimension is the size-2 dimension of a supplied edge table other than the edge dimension; only then any dimension of size 2", tw,
+                  pref or tw.node, construct='two_dimension: Two, then the non-edge dimension of an edge table, then any size-2 dimension')
         he = ctx.func(f"{TOPO}.has_edge_dimension")
         txt = ' '.join(norm_text(s) for s in he.body)
         ok = ("if 'edge_dimension' in self.mesh_attributes: return True" in txt.replace('\n', ' ')
@@ -355,6 +372,7 @@ from ..variants import V  # noqa: E402
 
 _U = 'src/emsarray/conventions/ugrid.py'
 VARIANTS = [
+    V('C10', 'pair-dimension-any-size-two', _U, "        if self.has_edge_dimension:\n            for key in ['edge_node_connectivity', 'edge_face_connectivity']:\n                name = self.mesh_attributes.get(key)\n                if name in self.dataset.variables:\n                    for dimension in self.dataset.variables[name].dims:\n                        if dimension != self.edge_dimension and self.dataset.sizes[dimension] == 2:\n                            return dimension\n", "", 'R10.5'),
     V('C10', 'start-index-not-subtracted', _U, "        if start_index != 0:\n            values = values - start_index\n\n        return values", "        return values", 'R10.1'),
     V('C10', 'start-index-before-masking', _U, "        values = data_array.values\n\n        if not issubclass", "        values = data_array.values - _get_start_index(data_array)\n\n        if not issubclass", 'R10.1'),
     V('C10', 'transpose-test-last-dim', _U, "        if data_array.dims[0] != primary_dimension:\n            data_array = data_array.transpose()", "        if data_array.dims[-1] != primary_dimension:\n            data_array = data_array.transpose()", 'R10.1'),
